@@ -368,13 +368,20 @@ def check_design(ck, d, texts_by_run):
                    case, {'runs': [l for l, _ in bad], 'first_differing_line': k + 1,
                           'here': la[k] if k < len(la) else None, 'there': lb[k] if k < len(lb) else None,
                           'oracle': 'the emitted text must be byte-identical across runs / hash seeds'})
+    # ---- the module names the translator chose (direct oracle, before any text is scanned): identifiers
+    names_chosen = top.get_metadata(P.translator).structural.component_unique_name
+    bad_names = sorted({n for n in names_chosen.values() if not c13_scan.is_id(n) or n in ck.reserved})
+    for n in bad_names[:2]:
+      ck.violation('illegal-identifier', {'finding': 'illegal-module-name'}, case,
+                   {'what': 'illegal-module-name', 'module_name': n, 'instances': [repr(m) for m, x in names_chosen.items() if x == n][:3],
+                    'oracle': 'module names match [A-Za-z_][A-Za-z0-9_$]* (the whole name) and are not reserved'})
     # ---- module table (direct oracle, then the verified checker)
     try:
       tab = c13_scan.scan(text)
+      if tab['unknown']: raise c13_scan.ScanError(f'line {tab["unknown"][0]} not understood')
     except c13_scan.ScanError as e:
-      raise InfraError(f'scanner: {e}')
-    if tab['unknown']:
-      raise InfraError(f'scanner does not understand line {tab["unknown"][0]} of design {d["uid"]} ({backend})')
+      if bad_names: continue            # the text is not scannable because of the illegal name reported above
+      raise InfraError(f'scanner: design {d["uid"]} ({backend}): {e}')
     wf_bad = c13_scan.direct_wf(tab, ck.reserved)
     for kind, detail in wf_bad[:3]:
       ck.violation('illegal-identifier' if kind.startswith('illegal') else kind,
@@ -609,7 +616,8 @@ def gen_value(rng, structs, flavour):
   from pymtl3.datatypes import mk_bits
   r = rng.random()
   if flavour == 'nonid':
-    return rng.choice([-1, -rng.randrange(1, 500), (1,), 1e20, -2.5e-7, 'a/b', 'a-b', {}, 'x+y', 'a:b', "it's", 'a,b', (), '#1', 'p%d', '2*3', '~x'])
+    return rng.choice([-1, -rng.randrange(1, 500), (1,), 1e20, -2.5e-7, 'a/b', 'a-b', {}, 'x+y', 'a:b', "it's", 'a,b', (), '#1', 'p%d', '2*3', '~x',
+                       'wide\n', 'x\n', 'a\r\n', 'v0\t', '\n', 'a\nb'])
   if flavour == 'special':
     return rng.choice(['a b', 'a.b', 'x<y', 'x>y', 'q[0]', [1, 2], [1, 3], 1.5, 2.5, (1, 2), 'a  b', ' ', '.', [[1], [2]], 0.1, [], 'v[1].f'])
   if r < 0.25: return rng.choice([0, 1, 2, 3, 7, 8, 16, 32, 64, 100, 255, 1024, 2**31, 2**64 + 1, rng.randrange(10**6)])
